@@ -31,7 +31,22 @@ func (x *Exec) call(st *State, c *ssa.Call, k func(st *State, res Val)) {
 		if os.Getenv("GOVC_CALLS") != "" {
 			fmt.Fprintf(os.Stderr, "call#%d %s %s\n", ord, x.qname, c.String())
 		}
-		if cls := x.spec.Asserts[fmt.Sprintf("call#%d", ord)]; len(cls) > 0 {
+		cls := x.spec.Asserts[fmt.Sprintf("call#%d", ord)]
+		if nm := calleeShortName(c); nm != "" {
+			// k-th call of that callee in block order
+			k := 0
+			for _, b := range c.Parent().Blocks {
+				for _, in := range b.Instrs {
+					if cc, ok := in.(*ssa.Call); ok && calleeShortName(cc) == nm {
+						k++
+						if cc == c {
+							cls = append(append([]*Clause{}, cls...), x.spec.Asserts[fmt.Sprintf("call:%s#%d", nm, k)]...)
+						}
+					}
+				}
+			}
+		}
+		if len(cls) > 0 {
 			env := x.envAt(st, fr)
 			for _, cl := range cls {
 				g := x.evalBool(st, env, cl)
@@ -137,6 +152,17 @@ func genericHeapUse(fn *ssa.Function) bool {
 		}
 	}
 	return false
+}
+
+func calleeShortName(c *ssa.Call) string {
+	com := c.Common()
+	if com.IsInvoke() {
+		return com.Method.Name()
+	}
+	if f, ok := com.Value.(*ssa.Function); ok {
+		return f.Name()
+	}
+	return ""
 }
 
 func sortKey(s *Sort) string {
